@@ -431,6 +431,7 @@ func runC14(c *core.Ctx) {
 	c.Rule("R14.5", "guarded globals: batched.relays is accessed only under relayLock (writes under the exclusive lock); a relay's connection list is stored only under addConnLock and read only through its atomic.Value", 3)
 	c.Rule("R14.6", "state created once by a constructor factory and captured by the per-connection closure is immutable or synchronisation-safe", 8)
 
+	c.Rule("R14.7", "a pooled object is released by one owner: a function that is handed a pooled object its caller releases (deferred or later) never puts that object back itself", 2)
 	initOnly := initOnlySet(c)
 	wrappers := poolWrappers(c)
 
@@ -476,6 +477,9 @@ func runC14(c *core.Ctx) {
 		}
 	}
 
+	// R14.7
+	runR147(c, "R14.7", wrappers, "")
+
 	// R14.2
 	runAtomicConsistency(c, "R14.2", nil, initOnly)
 
@@ -483,4 +487,190 @@ func runC14(c *core.Ctx) {
 	runR144(c)
 	runR145(c)
 	runR146(c)
+}
+
+// ---------------------------------------------------------------- R14.7
+
+type ownState struct {
+	f     ssax.Facts
+	alias map[ssa.Value]bool // values that currently denote the caller-owned parameter object
+}
+
+func (s *ownState) Key() string {
+	var a []string
+	for v := range s.alias {
+		a = append(a, fmt.Sprintf("%p", v))
+	}
+	sort.Strings(a)
+	return strings.Join(a, ",") + "|" + s.f.Key()
+}
+func (s *ownState) Copy() ssax.PState {
+	c := &ownState{f: s.f.Clone(), alias: map[ssa.Value]bool{}}
+	for k := range s.alias {
+		c.alias[k] = true
+	}
+	return c
+}
+
+func releasedValue(ins ssa.Instruction, wrappers map[*ssa.Function]int) ssa.Value {
+	cc := ssax.CallOf(ins)
+	if cc == nil {
+		return nil
+	}
+	if ssax.CalleeName(cc) == "(*sync.Pool).Put" && len(cc.Args) == 2 {
+		return ssax.Unwrap(cc.Args[1])
+	}
+	if f := cc.StaticCallee(); f != nil {
+		if idx, ok := wrappers[f]; ok && idx < len(cc.Args) {
+			return ssax.Unwrap(cc.Args[idx])
+		}
+	}
+	return nil
+}
+
+func runR147(c *core.Ctx, rule string, wrappers map[*ssa.Function]int, rel string) {
+	fns := c.P.RepoFuncs(rel)
+	n := 0
+	for _, caller := range fns {
+		// objects the caller releases itself
+		owned := map[ssa.Value]ssa.Instruction{}
+		ssax.Instrs(caller, func(ins ssa.Instruction) {
+			if v := releasedValue(ins, wrappers); v != nil {
+				for _, d := range ssax.Defs(v) {
+					owned[d] = ins
+				}
+				owned[v] = ins
+			}
+		})
+		if len(owned) == 0 {
+			continue
+		}
+		counts := map[string]int{}
+		ssax.Instrs(caller, func(ins ssa.Instruction) {
+			call, ok := ins.(*ssa.Call)
+			if !ok {
+				return
+			}
+			callee := call.Call.StaticCallee()
+			if callee == nil || len(callee.Blocks) == 0 || callee.Pkg == nil || !strings.HasPrefix(callee.Pkg.Pkg.Path(), core.Mod) {
+				return
+			}
+			if _, isWrapper := wrappers[callee]; isWrapper {
+				return
+			}
+			for ai, a := range call.Call.Args {
+				var rel ssa.Instruction
+				for _, d := range append(ssax.Defs(a), ssax.Unwrap(a)) {
+					if r, ok := owned[d]; ok {
+						rel = r
+					}
+				}
+				if rel == nil || ai >= len(callee.Params) {
+					continue
+				}
+				if _, isPtr := a.Type().Underlying().(*types.Pointer); !isPtr {
+					continue
+				}
+				// the caller's release must still be ahead (deferred, or reachable after the call)
+				if _, isDefer := rel.(*ssa.Defer); !isDefer {
+					if hit, _ := (ssax.Reach{Target: func(x ssa.Instruction) bool { return x == rel }}).From(call); hit == nil {
+						continue
+					}
+				}
+				n++
+				key := ordinalKey(counts, core.FuncName(caller)+"#passes-owned-to:"+callee.Name())
+				viol := calleeReleasesParam(c, callee, ai, call, wrappers)
+				c.Check(viol == "", rule, key, c.P.Pos(call.Pos()), "the callee never releases the object its caller owns",
+					fmt.Sprintf("%s releases the pooled object it was handed (%s) and %s releases it again at %s: the pool holds it twice and hands it to two connections at once", callee.Name(), viol, caller.Name(), c.P.Pos(rel.Pos())))
+			}
+		})
+	}
+	if n == 0 {
+		c.Undecided(rule, "pooled#ownership", "-", "no function passes a pooled object it owns to a callee")
+	}
+}
+
+// calleeReleasesParam explores callee path-sensitively: which values denote parameter idx at each point, with the
+// facts the call site establishes about that object's fields (e.g. header.Opcode == X).
+func calleeReleasesParam(c *core.Ctx, callee *ssa.Function, idx int, site *ssa.Call, wrappers map[*ssa.Function]int) string {
+	p := callee.Params[idx]
+	// field facts established at the call site: conditions `arg.F == const`
+	known := map[string]int64{}
+	for _, ec := range ssax.DomConds(site.Block()) {
+		bo, ok := ec.Cond.(*ssa.BinOp)
+		if !ok || bo.Op != token.EQL || !ec.True {
+			continue
+		}
+		k, isC := ssax.ConstInt(bo.Y)
+		if !isC {
+			continue
+		}
+		if u, ok := bo.X.(*ssa.UnOp); ok && u.Op == token.MUL {
+			if fa, ok := u.X.(*ssa.FieldAddr); ok {
+				same := false
+				for _, d := range append(ssax.Defs(site.Call.Args[idx]), ssax.Unwrap(site.Call.Args[idx])) {
+					if fa.X == d {
+						same = true
+					}
+				}
+				if n, _ := ssax.FieldName(fa); same {
+					known[n] = k
+				}
+			}
+		}
+	}
+	viol := ""
+	ex := &ssax.Explorer{Fn: callee}
+	ex.Enter = func(b, pred *ssa.BasicBlock, ps ssax.PState) {
+		s := ps.(*ownState)
+		if pred != nil {
+			for _, ins := range b.Instrs {
+				phi, ok := ins.(*ssa.Phi)
+				if !ok {
+					break
+				}
+				if op := ssax.PhiOperand(phi, pred); op != nil && s.alias[op] {
+					s.alias[phi] = true
+				} else {
+					delete(s.alias, phi)
+				}
+			}
+		}
+		s.f.EnterBlock(b, pred)
+		s.f.Retain(func(v ssa.Value) bool { return types.TypeString(v.Type(), nil) == "bool" })
+	}
+	ex.Instr = func(ins ssa.Instruction, ps ssax.PState) bool {
+		s := ps.(*ownState)
+		if _, isDefer := ins.(*ssa.Defer); !isDefer {
+			if v := releasedValue(ins, wrappers); v != nil && s.alias[v] {
+				viol = "at " + c.P.Pos(ins.Pos())
+			}
+		}
+		s.f.Step(ins)
+		return true
+	}
+	ex.Branch = func(ifi *ssa.If, truth bool, ps ssax.PState) bool {
+		s := ps.(*ownState)
+		// a comparison of a field of the owned object with a constant the call site has pinned down
+		if bo, ok := ifi.Cond.(*ssa.BinOp); ok && (bo.Op == token.EQL || bo.Op == token.NEQ) {
+			if k, isC := ssax.ConstInt(bo.Y); isC {
+				if u, ok := bo.X.(*ssa.UnOp); ok && u.Op == token.MUL {
+					if fa, ok := u.X.(*ssa.FieldAddr); ok && s.alias[fa.X] {
+						if n, _ := ssax.FieldName(fa); true {
+							if kv, has := known[n]; has {
+								val := (kv == k) == (bo.Op == token.EQL)
+								return val == truth
+							}
+						}
+					}
+				}
+			}
+		}
+		return s.f.Assume(ifi.Cond, truth)
+	}
+	ex.Run(&ownState{f: ssax.Facts{}, alias: map[ssa.Value]bool{p: true}})
+	if ex.Exceeded {
+		return "analysis exceeded its state bound"
+	}
+	return viol
 }
